@@ -132,7 +132,11 @@ func runE2E(c *Ctx, e e2eCase, servers map[string]*httptest.Server) {
 	if e.sendComp == "X-Rle" {
 		copts = append(copts, connect.WithAcceptCompression("X-Rle", newRLEDecompressor, newRLECompressor))
 	}
-	if e.sendComp != "" {
+	if e.sendComp == "accept-rle-x" {
+		// the client offers an algorithm whose name merely starts like one the handler has ("rle-x"
+		// is not "rle"): the handler must answer with something the client offered (gzip) or nothing
+		copts = []connect.ClientOption{connect.WithCodec(rawCodec{"raw"}), connect.WithAcceptCompression("rle-x", newRepDecompressor, newRepCompressor), connect.WithCompressMinBytes(e.min)}
+	} else if e.sendComp != "" {
 		copts = append(copts, connect.WithSendCompression(e.sendComp))
 	}
 	switch e.proto {
@@ -301,7 +305,7 @@ func streamE2E(c *Ctx) {
 						msgs = [][]byte{{7}, {}, {}, {3}}
 					}
 					e := e2eCase{proto: proto, kind: kind, codec: "raw", transport: transport, msgs: msgs,
-						sendComp: []string{"", "rle", "gzip", "X-Rle"}[r.Intn(4)], min: []int{0, 0, 1, 10, 100}[r.Intn(5)]}
+						sendComp: []string{"", "rle", "gzip", "X-Rle", "accept-rle-x"}[r.Intn(5)], min: []int{0, 0, 1, 10, 100}[r.Intn(5)]}
 					runE2E(c, e, nil)
 				}
 			}
